@@ -13,23 +13,16 @@ theorem length_zipWith_mul (a w : List Int) (h : a.length = w.length) :
   simp [h]
 
 /-- unpacked converse finite facts -/
-theorem numbr_facts {n : Nat} (hn : 2 ≤ n ∧ n ≤ 5) {u : List Int} (hl : u.length = n)
+theorem numbr_facts {n : Nat} (hn : Ev.DimOK n) {u : List Int} (hl : u.length = n)
     (hu : pm1 u = true) :
     (numbr n u).1 < 2^n ∧ node n (numbr n u).1 = ((numbr n u).2.1, u, (numbr n u).2.2) := by
   have hm := mem_allSigns n u hl hu
-  have h : numbrOK n u = true := by
-    obtain ⟨h2, h5⟩ := hn
-    have : n = 2 ∨ n = 3 ∨ n = 4 ∨ n = 5 := by omega
-    rcases this with rfl | rfl | rfl | rfl
-    · exact numbrOK2 u hm
-    · exact numbrOK3 u hm
-    · exact numbrOK4 u hm
-    · exact numbrOK5 u hm
+  have h : numbrOK n u = true := numbrOK_of_dimOK hn hm
   simpa [numbrOK] using h
 
 /-- `__CalculateNode` inverts `__CalculateNumbr`: for a sign vector `u`, with
 `(d, l, v) = numbr n u`: `d < 2^n` and `node n d = (l, u, v)` -/
-theorem node_numbr {n : Nat} (hn : 2 ≤ n ∧ n ≤ 5) {u : List Int} (hl : u.length = n)
+theorem node_numbr {n : Nat} (hn : Ev.DimOK n) {u : List Int} (hl : u.length = n)
     (hu : pm1 u = true) : node n (numbr n u).1 = ((numbr n u).2.1, u, (numbr n u).2.2) :=
   (numbr_facts hn hl hu).2
 
@@ -42,7 +35,7 @@ theorem invStep_snd (n : Nat) (s : St) (u0 : List Int) : (invStep n s u0).2 =
     (numbr n (swap0 (List.zipWith (· * ·) u0 s.iw) s.it)).1 := rfl
 
 /-- the converse of `invStep_step` -/
-theorem step_invStep {n : Nat} (hn : 2 ≤ n ∧ n ≤ 5) {s : St} (hs : Valid n s) {u0 : List Int}
+theorem step_invStep {n : Nat} (hn : Ev.DimOK n) {s : St} (hs : Valid n s) {u0 : List Int}
     (hl : u0.length = n) (hu : pm1 u0 = true) :
     (invStep n s u0).2 < 2^n ∧ step n s (invStep n s u0).2 = ((invStep n s u0).1, u0) := by
   obtain ⟨hit, hwl, hw⟩ := hs
